@@ -37,7 +37,14 @@ def _call(args):
     signal.alarm(JOB_TIMEOUT)
     try:
         import kernpy as kp
-        return fn(kp, job)
+        from harness import docs as _docs
+        del _docs.SESSION_MISMATCHES[:]
+        res = fn(kp, job)
+        if _docs.SESSION_MISMATCHES and isinstance(res, dict) and 'records' in res:
+            res['records'].append(rec('session', viol=[('session', sig, dict(wit, job=repr(job)[:300])) for sig, wit in _docs.SESSION_MISMATCHES[:3]],
+                                      kind='session', key=('session', repr(job)[:200])))
+            del _docs.SESSION_MISMATCHES[:]
+        return res
     except JobTimeout:
         # a call of the library that does not return is a failing input of whatever property the job explores
         return {'records': [rec('timeout', viol=[('terminates', f'the library did not return within {JOB_TIMEOUT} s on this job', {'job': repr(job)[:2000]})],
